@@ -1033,8 +1033,8 @@ class MatlabWrapper(CheckMixin, FormatMixin):
         file_name = self._clean_class_name(instantiated_class)
         namespace_file_name = namespace_name + file_name
 
-        uninstantiated_name = "::".join(instantiated_class.namespaces()
-                                        [1:]) + "::" + instantiated_class.name
+        uninstantiated_name = "::".join(instantiated_class.namespaces()[1:] +
+                                        [instantiated_class.name])
         if uninstantiated_name in self.ignore_classes:
             return None
 
@@ -1201,7 +1201,8 @@ class MatlabWrapper(CheckMixin, FormatMixin):
                         ])[:-1], [(class_text[0], class_text[1])]))
                 else:
                     class_text = self.wrap_instantiated_class(element)
-                    top_level_scope.append((class_text[0], class_text[1]))
+                    if not class_text is None:
+                        top_level_scope.append((class_text[0], class_text[1]))
 
         self.content.extend(top_level_scope)
 
